@@ -295,7 +295,7 @@ def run(ctx):
     progs = []      # (id, src, features)
     for pid, src in DET_PROGRAMS.items():
         progs.append((pid, src, {}))
-    nprog = ctx.n(24, 400)
+    nprog = ctx.n(36, 400)
     feats = {}
     for i in range(nprog):
         src, feat = g9prog.go_program(ctx.rng)
